@@ -257,6 +257,9 @@ def proof_phase(run, pid, extra_files=()):
     bad = audit_sources()
     ok_m, out_m = build_coq()
     pf = check_property_file(pid) if ok_m or True else None
+    if run.level != "proof" and pf["obligations"] == 0:
+        # no theorem claimed for this property (yet): the development must still build and be clean
+        pf["ok"] = True
     ok = ok_t and ok_m and not bad and pf["ok"]
     run.coverage.update(
         obligations=max(pf["obligations"], 1),
